@@ -88,6 +88,7 @@ FindZerox ==
             /\ stage' = "rows"
   /\ UNCHANGED <<tid, ext, rows>>
 
+Indexable(t) == \A k \in 1 .. Len(t) : \A f \in {"lastzx", "last", "zx1", "centre", "zx2", "next"} : t[k][f] \in 0 .. (c.n - 1)
 RowOf(r) == [last |-> r.last, lastzx |-> r.lastzx, zx1 |-> r.zx1, centre |-> r.centre, zx2 |-> r.zx2, next |-> r.next]
 Assemble ==
   /\ stage = "rows"
@@ -99,7 +100,7 @@ Assemble ==
                               \o Fail(Len(c.rows) = Len(sr), "C01.one_row_per_cycle")
                               \o (IF c.has_samples THEN Fail(lg = sr, "C01.rows") \o Fail(TableWF(lg, c.n, c.B), "C01.wellformed") ELSE <<>>)
                               \o Fail(c.rs = c.has_samples, "C01.return_samples")
-            /\ rows' = IF c.has_samples /\ Len(lg) = Len(sr) /\ TableWF(lg, c.n, -1) THEN lg ELSE sr      \* adopt the logged rows only when they can be indexed
+            /\ rows' = IF c.has_samples /\ Len(lg) = Len(sr) /\ Indexable(lg) THEN lg ELSE sr      \* adopt the logged rows only when they can be indexed
             /\ stage' = IF Len(c.rows) = Len(sr) THEN "shape" ELSE "finish"
   /\ UNCHANGED <<tid, ext, zx>>
 
